@@ -427,7 +427,22 @@ func runT(c tCase) tObs {
 	return o
 }
 
+func hasAct(prog []string, x string) bool {
+	for _, a := range prog {
+		if a == x {
+			return true
+		}
+	}
+	return false
+}
+
 func emitT(id string, c tCase, st *hx.Stats) string {
+	if raceBuild && hasAct(c.Prog, "X") {
+		if st != nil {
+			st.Count("T_skipped_under_race_K10b")
+		}
+		return fmt.Sprintf("# %s skipped in the -race build: parent cancel races by construction (K10b)%s", id, hx.Comment(c))
+	}
 	l := hx.NewLine(id).Tok("T").Bool(c.WaitH).Bool(c.Custom).Nat(len(c.Prog))
 	for _, x := range c.Prog {
 		l.Tok(x)
@@ -553,7 +568,7 @@ func main() {
 	out := func(s string) { fmt.Fprintln(w, s) }
 	switch args.Cmd {
 	case "gen":
-		r := hx.NewRand(args.Seed)
+		r := hx.NewRand(cx.MixSeed(args.Seed))
 		st := hx.NewStats()
 		for i, c := range fixedR() {
 			out(emitR(fmt.Sprintf("c10-fixR-%d", i), c, st))
